@@ -259,6 +259,35 @@ pub fn run(prop: &str, tier: &str, replay: Option<&str>) -> i32 {
         });
         rep.add(sec);
     }
+    // C1c. element counts: lists of n elements for n around 127/128, 255/256 (and 0..3, 1000) in every list-typed field
+    {
+        let counts: Vec<usize> = vec![0, 1, 2, 3, 16, 126, 127, 128, 129, 255, 256, 257, 1000];
+        let fields = ["sans", "ekus", "custom_exts", "crl_dps", "crl_dp uris", "nc permitted", "nc excluded", "dn attributes", "key usages (repeated)"];
+        // a distribution point without any URI is a caller-supplied empty GeneralNames: not a conformant parameter set
+        let cases: Vec<(usize, usize)> = (0..fields.len()).flat_map(|f| counts.iter().map(move |n| (f, *n))).filter(|c| !(conformant_only && c.0 == 4 && c.1 == 0)).collect();
+        let ctx = stub_self_ctx(Alg::Ed25519, 1);
+        let sec = Section::new("sweep/element-counts", "lists of 0,1,2,3,16,126..129,255..257,1000 elements in each list-typed field (alternative names, extended key usages, custom extensions, CRL distribution points and their URIs, permitted / excluded subtrees, name attributes, repeated key usages)");
+        run::sweep_cases(&sec, &cases, &|c| format!("{} x {}", fields[c.0], c.1), &|c| {
+            let n = c.1;
+            let mut st = CertState::default();
+            match c.0 {
+                0 => st.sans = (0..n).map(|i| if i % 3 == 2 { SanSpec::Ip(vec![10, (i >> 16) as u8, (i >> 8) as u8, i as u8]) } else { SanSpec::Dns(format!("h{}.example", i)) }).collect(),
+                1 => st.ekus = (0..n).map(|i| EkuSpec::Other(vec![1, 3, 6, 1, 4, 1, 55555, i as u64])).collect(),
+                2 => st.custom_exts = (0..n).map(|i| CustomExtSpec { oid: vec![1, 3, 6, 1, 4, 1, 55555, 7, i as u64], critical: i % 2 == 1, content: vec![0x02, 0x01, (i % 128) as u8], acme: false }).collect(),
+                3 => st.crl_dps = (0..n).map(|i| vec![format!("http://crl.example/{}", i)]).collect(),
+                4 => st.crl_dps = vec![(0..n).map(|i| format!("http://crl.example/u{}", i)).collect()],
+                5 | 6 => {
+                    st.is_ca = IsCaSpec::Unconstrained;
+                    let subs: Vec<SubtreeSpec> = (0..n).map(|i| if i % 2 == 0 { SubtreeSpec::Dns(format!("d{}.example", i)) } else { SubtreeSpec::Ip(CidrSpec { addr: vec![10, (i >> 8) as u8, i as u8, 0], prefix: 24, ctor: CidrCtor::AddrPrefix }) }).collect();
+                    st.nc = Some(if c.0 == 5 { NcSpec { permitted: subs, excluded: vec![] } } else { NcSpec { permitted: vec![], excluded: subs } });
+                }
+                7 => st.dn = DnSpec((0..n).map(|i| (DnTypeSpec::Custom(vec![1, 3, 6, 1, 4, 1, 55555, 9, i as u64]), StrKind::Utf8, format!("v{}", i))).collect()),
+                _ => st.key_usages = (0..n).map(|i| (i % 9) as u8).collect(),
+            }
+            judge.judge(&st, &ctx)
+        });
+        rep.add(sec);
+    }
     // C2. sizes: every length around the DER length-form boundaries, in four places
     {
         let mut lens: Vec<usize> = (0..=300).collect();
@@ -327,6 +356,9 @@ pub fn run(prop: &str, tier: &str, replay: Option<&str>) -> i32 {
         }
         rep.add(sec);
     }
+    if prop == "C02" {
+        c02_constructors(&mut rep, &judge);
+    }
     if prop == "C04" {
         c04_extras(&mut rep, &judge, thorough);
         #[cfg(feature = "crypto")]
@@ -342,6 +374,119 @@ pub fn run(prop: &str, tier: &str, replay: Option<&str>) -> i32 {
         super::c08::add_sections(&mut rep, prop, thorough, true);
     }
     run::finish(rep)
+}
+
+/// C02: the convenience constructors and accessors say the same as the fields. `CertificateParams::new(names)` and
+/// `generate_simple_self_signed(names)` over every list of <= 3 names from an alphabet of host names, IPv4 / IPv6
+/// literals, look-alikes, empty and non-ASCII texts: the parameters equal the state the harness builds field by field
+/// (an IP literal is an iPAddress, anything else a dNSName, in order; a non-IA5 text is refused), the certificate
+/// says what that state says, and the returned key pair verifies it. CustomExtension accessors return what went in.
+fn c02_constructors(rep: &mut Report, judge: &Judge) {
+    let alphabet = ["a.example", "*.b.example", "192.0.2.1", "::1", "2001:db8::1", "::ffff:192.0.2.1", "1.2.3", "256.1.1.1", "01.2.3.4", "", "localhost", "[::1]", "\u{e9}.example", "a b"];
+    let mut lists: Vec<Vec<&str>> = vec![vec![]];
+    for a in alphabet {
+        lists.push(vec![a]);
+        for b in alphabet {
+            lists.push(vec![a, b]);
+        }
+    }
+    for a in ["a.example", "192.0.2.1", "::1"] {
+        for b in ["*.b.example", "2001:db8::1", "1.2.3"] {
+            for c in alphabet {
+                lists.push(vec![a, b, c]);
+            }
+        }
+    }
+    let ctx = stub_self_ctx(Alg::Ed25519, 1);
+    let sec = Section::new("constructors/CertificateParams::new + generate_simple_self_signed", &format!("{} name lists of <= 3 names over {} texts", lists.len(), alphabet.len()));
+    run::sweep_cases(&sec, &lists, &|l| format!("{:?}", l), &|l| {
+        let mut out = Outcome::default();
+        let names: Vec<String> = l.iter().map(|s| s.to_string()).collect();
+        let all_ia5 = names.iter().all(|n| n.is_ascii());
+        let mut st = CertState::default();
+        st.sans = names
+            .iter()
+            .map(|n| match n.parse::<std::net::IpAddr>() {
+                Ok(std::net::IpAddr::V4(a)) => SanSpec::Ip(a.octets().to_vec()),
+                Ok(std::net::IpAddr::V6(a)) => SanSpec::Ip(a.octets().to_vec()),
+                Err(_) => SanSpec::Dns(n.clone()),
+            })
+            .collect();
+        let got = guarded(|| rcgen::CertificateParams::new(names.clone()));
+        out.transitions = 1;
+        match got {
+            Err(p) => out.findings.push(Finding::new("CNT-PANIC", "CertificateParams::new", p)),
+            Ok(Err(e)) => {
+                if all_ia5 {
+                    out.findings.push(Finding::new("CNT-VALUE(constructor)", "CertificateParams::new", format!("refused names that are all IA5: {:?}", e)));
+                }
+            }
+            Ok(Ok(p)) => {
+                if !all_ia5 {
+                    out.findings.push(Finding::new("CNT-VALUE(constructor)", "CertificateParams::new", "accepted a non-IA5 name"));
+                } else {
+                    match crate::glue::to_params(&st) {
+                        Ok(want) if want == p => {}
+                        Ok(_) => out.findings.push(Finding::new("CNT-VALUE(constructor)", "CertificateParams::new", "parameters differ from the ones built field by field (IP literals are iPAddress, everything else dNSName, in order, all other fields default)")),
+                        Err(e) => out.unexpected_err = Some(e),
+                    }
+                    let o2 = judge.judge(&st, &ctx);
+                    out.findings.extend(o2.findings);
+                    out.transitions += o2.transitions;
+                    out.digest = o2.digest;
+                }
+            }
+        }
+        #[cfg(feature = "crypto")]
+        if all_ia5 && l.len() <= 1 {
+            match guarded(|| rcgen::generate_simple_self_signed(names.clone())) {
+                Ok(Ok(ck)) => {
+                    if crate::glue::to_params(&st).ok().as_ref() != Some(ck.cert.params()) {
+                        out.findings.push(Finding::new("CNT-VALUE(constructor)", "generate_simple_self_signed", "certificate parameters differ from CertificateParams::new(names)"));
+                    }
+                    use rcgen::PublicKeyData;
+                    match refmodel::x509::decode_cert(ck.cert.der()).value {
+                        Some(abs) => {
+                            let alg = alg_of(ck.key_pair.algorithm());
+                            let spki_ok = alg.map(|a| abs.spki_raw == KeyPub { alg: a, raw: ck.key_pair.der_bytes().to_vec() }.spki()).unwrap_or(false);
+                            if !spki_ok {
+                                out.findings.push(Finding::new("CNT-VALUE(constructor)", "generate_simple_self_signed", "the certificate does not carry the returned key pair's public key"));
+                            }
+                        }
+                        None => out.findings.push(Finding::new("DECODE-FAILED", "generate_simple_self_signed", "undecodable certificate")),
+                    }
+                }
+                other => out.findings.push(Finding::new("CNT-VALUE(constructor)", "generate_simple_self_signed", format!("{:?}", other.map(|r| r.map(|_| ()))))),
+            }
+        }
+        out
+    });
+    rep.add(sec);
+    // CustomExtension: constructors and accessors
+    let sec = Section::new("constructors/CustomExtension accessors", "from_oid_content / set_criticality / new_acme_identifier: oid_components(), criticality(), content() return what went in; the ACME identifier is critical, has the registered OID and an OCTET STRING of the digest as content");
+    let cases: Vec<(Vec<u64>, Vec<u8>, bool)> = vec![(vec![1, 2, 3, 4], vec![5, 0], false), (vec![2, 999, 1], vec![], true), (vec![1, 3, 6, 1, 4, 1, 1, u64::MAX], vec![0xff; 200], true), (vec![0, 0], vec![1], false)];
+    run::sweep_cases(&sec, &cases, &|c| format!("{:?} critical={}", c.0, c.2), &|c| {
+        let mut out = Outcome::default();
+        let mut e = rcgen::CustomExtension::from_oid_content(&c.0, c.1.clone());
+        if e.criticality() {
+            out.findings.push(Finding::new("CNT-VALUE(accessor)", "CustomExtension::from_oid_content", "a new custom extension is critical"));
+        }
+        e.set_criticality(c.2);
+        if e.oid_components().collect::<Vec<u64>>() != c.0 || e.content() != c.1.as_slice() || e.criticality() != c.2 {
+            out.findings.push(Finding::new("CNT-VALUE(accessor)", "CustomExtension", "oid_components / content / criticality differ from what was set"));
+        }
+        let digest = [0x5au8; 32];
+        let a = rcgen::CustomExtension::new_acme_identifier(&digest);
+        let mut want = vec![0x04, 0x20];
+        want.extend_from_slice(&digest);
+        if a.oid_components().collect::<Vec<u64>>() != vec![1, 3, 6, 1, 5, 5, 7, 1, 31] || !a.criticality() || a.content() != want.as_slice() {
+            out.findings.push(Finding::new("CNT-VALUE(accessor)", "CustomExtension::new_acme_identifier", "not {1.3.6.1.5.5.7.1.31, critical, OCTET STRING(digest)}"));
+        }
+        out.digest = fnv(&c.1) ^ c.0.len() as u64;
+        out.transitions = 6;
+        out
+    });
+    rep.add(sec);
 }
 
 /// C04: what was imported is emitted again. Every foreign certificate / request of the reference-built corpus, plus
